@@ -267,10 +267,86 @@ Theorem C19_argmax_small_bits_refuted :
 Proof. exact argmax_small_bits_refuted. Qed.
 Print Assumptions C19_argmax_small_bits_refuted.
 
+(* ---------------------------------------------------------------- indexing, put, stacking *)
+(* an int key follows Python sequence indexing (negative counts from the end, out of range raises) *)
+Theorem C19_getitem_int_index : forall n z, 0 < n ->
+  key_get n (KInt z) = if (- n <=? z) && (z <? n) then Some (from_end n z, from_end n z + 1) else None.
+Proof. exact key_get_int. Qed.
+Print Assumptions C19_getitem_int_index.
+
+Theorem C19_getitem_slice_bounds : forall n s e, 0 < n ->
+  (forall z, s = Some z -> - n <= z <= n) -> (forall z, e = Some z -> - n <= z <= n) ->
+  key_get n (KSl s e) = Some (py_bound n 0 s, py_bound n n e).
+Proof. exact key_get_slice. Qed.
+Print Assumptions C19_getitem_slice_bounds.
+
+Theorem C19_getitem_block : forall r c a kr kc rs re cs ce i j, wfx r c a -> mrange a -> bits a <= maxb a ->
+  key_get (Z.of_nat r) kr = Some (rs, re) -> key_get (Z.of_nat c) kc = Some (cs, ce) ->
+  0 <= rs < re -> 0 <= cs < ce -> (Z.of_nat i < re - rs) -> (Z.of_nat j < ce - cs) ->
+  exists res, mgetitem a kr kc = Some res /\ bits res = bits a /\
+              el res i j = el a (Z.to_nat rs + i) (Z.to_nat cs + j).
+Proof. exact getitem_block. Qed.
+Print Assumptions C19_getitem_block.
+
+(* FALSE of the code as it is: m[-1, c] = v raises (signature 'setitem:neg1-tuple-index-raises') *)
+Theorem C19_setitem_neg1_refuted :
+  exists a x, wfx 2 2 a /\ key_get 2 (KInt (-1)) = Some (1, 2) /\ msetitem_s a (KInt (-1)) (KInt 0) x = None.
+Proof. exact setitem_neg1_refuted. Qed.
+Print Assumptions C19_setitem_neg1_refuted.
+
+Theorem C19_put_index_raise : forall count ix, 0 < count ->
+  put_ix count PRaise ix = if (- count <=? ix) && (ix <? count) then Some (from_end count ix) else None.
+Proof. exact put_ix_raise. Qed.
+Print Assumptions C19_put_index_raise.
+
+Theorem C19_put_index_wrap : forall count ix, 0 < count -> put_ix count PWrap ix = Some (ix mod count).
+Proof. exact put_ix_wrap. Qed.
+Print Assumptions C19_put_index_wrap.
+
+Theorem C19_put_index_clip : forall count ix, 0 < count ->
+  put_ix count PClip ix = Some (Z.max 0 (Z.min (count - 1) (from_end count ix))).
+Proof. exact put_ix_clip. Qed.
+Print Assumptions C19_put_index_clip.
+
+Theorem C19_put_writes_flat_position : forall r c a ix x i j, wfx r c a -> 0 <= ix < Z.of_nat (r * c) ->
+  (i < r)%nat -> (j < c)%nat ->
+  el (set_flat a ix x) i j = if Z.of_nat (i * c + j) =? ix then trunc (bits a) x else el a i j.
+Proof. exact set_flat_spec. Qed.
+Print Assumptions C19_put_writes_flat_position.
+
+(* FALSE of the code as it is: a row-vector Matrix v is indexed against count of SELF
+   (signature 'put:matrix-v-bound-uses-self-count') *)
+Theorem C19_put_matrix_value_refuted :
+  exists a v ind, mput_list a ind (nth 0 (dat v) []) PRaise <> mput_mat a ind v PRaise.
+Proof. exact put_matrix_value_refuted. Qed.
+Print Assumptions C19_put_matrix_value_refuted.
+
+(* FALSE of the code as it is: dot(1x1 Matrix, Matrix) raises (signature 'dot:1x1-first-raises') *)
+Theorem C19_dot_1x1_first_refuted : exists a b, mdot a b = None /\ mdot b a <> None.
+Proof. exact dot_1x1_first_refuted. Qed.
+Print Assumptions C19_dot_1x1_first_refuted.
+
+Theorem C19_hstack_rows : forall m1 m2 ms i, let all := m1 :: m2 :: ms in
+  forallb (fun x => Nat.eqb (rows_of x) (rows_of m1)) all = true -> (i < rows_of m1)%nat ->
+  exists res, mhstack all = Some res /\
+    bits res = capb (zmaxl (map bits all)) (zmaxl (map maxb all)) /\
+    nth i (dat res) [] = map (trunc (bits res)) (concat (map (fun m => row m i) all)).
+Proof. exact hstack_rows. Qed.
+Print Assumptions C19_hstack_rows.
+
+Theorem C19_vstack_rows : forall m1 m2 ms, let all := m1 :: m2 :: ms in
+  forallb (fun x => Nat.eqb (cols_of x) (cols_of m1)) all = true ->
+  (forall m, In m all -> wfm (rows_of m) (cols_of m1) (dat m)) ->
+  exists res, mvstack all = Some res /\
+    bits res = capb (zmaxl (map bits all)) (zmaxl (map maxb all)) /\
+    dat res = map (map (trunc (bits res))) (concat (map dat all)).
+Proof. exact vstack_rows. Qed.
+Print Assumptions C19_vstack_rows.
+
 (* ---------------------------------------------------------------- not proved (tie + search only) *)
-(* ** / reversed / getitem / setitem / put / dot / hstack / vstack / concatenate / bits setter are modelled
-   in Lib/Matrix.v and compared with the real class and with nested-list arithmetic on every run,
-   but have no theorem.  The statement for ** that remains to be proved: *)
+(* ** , reversed, __setitem__ with a Matrix value, the put loop as a whole, dot's dispatch and the bits
+   setter are modelled in Lib/Matrix.v and compared with the real class and with nested-list arithmetic
+   on every run, but have no theorem.  The statement for ** that remains to be proved: *)
 Fixpoint mat_pow_spec (a : Mx) (n : nat) (i j : nat) : Z :=
   match n with
   | O => if Nat.eqb i j then 1 else 0
